@@ -116,6 +116,37 @@ def answer (w : W) (kind : String) (r : Rel) (arg : String) : String :=
     else
       join (parents.map (fun p =>
         s!"{labelOf w p.id}:c1={((children db r p).filter wide).length},c2={((children db r p).filter narrow).length}"))
+  else if kind == "cfilterne" then
+    -- the parent is not called `arg`; a child without a parent has no parent called so either
+    join ((kidsAll.filter (fun c => match parentOf db r c with | some p => p.name != arg | none => true)).map (fun c => labelOf w c.id))
+  else if kind == "cfilterown" then
+    -- arg = "a,name": the parent is called name and the child's own x exceeds a
+    let ab := arg.splitOn ","
+    let a : Int := (ab.headD "0").toInt?.getD 0
+    let nm := (ab.drop 1).headD ""
+    join (((childrenWith db r (fun p => p.name == nm)).filter (fun c => match c.x with | some x => x > a | none => false)).map
+      (fun c => labelOf w c.id))
+  else if kind == "pcountf" then
+    join ((parentsWith db r gt).map (fun p => s!"{labelOf w p.id}:count={(children db r p).length}"))
+  else if kind == "pdocidf" then
+    -- arg = "label,a": that parent, if one of its related documents has x > a
+    let ab := arg.splitOn ","
+    let a : Int := ((ab.drop 1).headD "0").toInt?.getD 0
+    match idOf w (ab.headD "") with
+    | some k => join (((parentsWith db r (fun d => match d.x with | some x => x > a | none => false)).filter (·.id == k)).map
+        (fun p => labelOf w p.id))
+    | none => ""
+  else if kind == "cdocidf" then
+    -- arg = "label,name": that child, if its parent is called name
+    let ab := arg.splitOn ","
+    let nm := (ab.drop 1).headD ""
+    match idOf w (ab.headD "") with
+    | some k => join (((childrenWith db r (fun p => p.name == nm)).filter (·.id == k)).map (fun c => labelOf w c.id))
+    | none => ""
+  else if kind == "kidsdocid" then
+    match idOf w arg with
+    | some k => join (parents.map (fun p => labelOf w p.id ++ ":" ++ kidsStr w ((children db r p).filter (·.id == k))))
+    | none => ""
   else if kind == "topcount" then toString (childrenWith db r gt).length
   else if kind == "topsum" then toString (sumX (childrenWith db r (fun p => p.name == arg)))
   else if kind == "corder" then
